@@ -4,6 +4,7 @@
 //! `kani::any()`, natively they are replayed from a solver counterexample.
 
 #![allow(clippy::all)]
+#![recursion_limit = "1024"]
 
 pub mod nd;
 pub mod refm;
